@@ -1209,6 +1209,8 @@ func replay(c *core.Ctx) {
 		k.afterFailedWrite()
 	case "after-failed-read":
 		k.afterFailedRead()
+	case "load-after-replace":
+		k.loadAfterReplace()
 	default:
 		c.HarnessError("unknown case kind %q", cs.Kind)
 	}
